@@ -22,7 +22,7 @@ RULE = ('(a) fragments of 1-6 consecutive residues cut from the repository\'s te
         '(b) random point clouds over every element of the table plus unknown ones with pairs planted at '
         'threshold x (1 +- 1e-6, 1 +- 1e-3). fudge 0.5-2.0, all four name/distance modes. Non-trivial = >= 2 residues '
         'and >= 1 pair within 1e-3 of its threshold or an unknown-element atom ahead of other atoms. distinct = distinct '
-        'case hashes.')
+        'case hashes. Also: residue numbers 0/negative, empty chain identifiers; one MakeBonds object per argument set shared by all systems of a shard.')
 ASSUMPTIONS = ['pairs within 1e-9 (relative) of their threshold are undecided',
                'radii: Bondi 1964 (H: Rowland & Taylor 1996, D as H); element symbols are case sensitive as in the table',
                'residue identity = (input molecule, chain, resid, resname, insertion code)']
